@@ -49,6 +49,7 @@ fn tow_oracle(c: &Tow) -> Verdict {
     let e = lib!(Epoch::from_time_of_week(c.week, c.ns, SCALES[c.s]));
     ensure!(e.time_scale == SCALES[c.s], "scale not preserved");
     ensure!(count(e.duration) == exact, "from_time_of_week({}, {}, {}) has count {}, want {}", c.week, c.ns, SCALE_NAMES[c.s], count(e.duration), exact);
+    ensure!(canonical(e.duration), "from_time_of_week({}, {}, {}) is not canonical: {:?}", c.week, c.ns, SCALE_NAMES[c.s], e.duration.to_parts());
     if c.s == S_UTC {
         let u = lib!(Epoch::from_time_of_week_utc(c.week, c.ns));
         ensure!(u.time_scale == SCALES[S_UTC] && count(u.duration) == exact, "from_time_of_week_utc differs");
@@ -164,6 +165,16 @@ fn counter_oracle(c: &Counter) -> Verdict {
         } else {
             ensure!(r3.is_err(), "{} {} (count {} in {}) read as counter gives {:?}, want an error", SCALE_NAMES[c.e.s], c.e.c, in_s, SCALE_NAMES[s], r3);
         }
+        // the `{:o}` text form prints the GPST counter: if it prints anything, it is that count and no other number
+        if c.which == 0 {
+            let e3 = c.e.lib();
+            let txt = guard(move || format!("{:o}", e3));
+            if in_s >= 0 && in_s < NPC {
+                ensure!(matches!(&txt, Ok(t) if *t == in_s.to_string()), "{{:o}} of {} {} prints {:?}, want the GPST counter {}", SCALE_NAMES[c.e.s], c.e.c, txt, in_s);
+            } else if let Ok(t) = &txt {
+                ensure!(*t == in_s.to_string(), "{{:o}} of {} {} prints {:?} although the GPST count is {} (negative or beyond one century): a wrong number instead of an error", SCALE_NAMES[c.e.s], c.e.c, t, in_s);
+            }
+        }
     }
     let class = if c.n as i128 >= NPC { "counter>=century" } else if s != S_GPST { "scale!=GPST" } else { "plain" };
     Verdict::Pass(class, class != "plain")
@@ -231,11 +242,43 @@ fn doy_oracle(c: &Doy) -> Verdict {
     Verdict::Pass(class, class != "plain")
 }
 
+// ---------------------------------------------------------------- day of year read from an epoch
+#[derive(Clone, Debug, Serialize, Deserialize)]
+pub struct DoyRead {
+    /// ns since 1900-01-01T00:00:00 in the scale's own calendar
+    pub g: i128,
+    pub s: usize,
+}
+
+fn doyread_strategy() -> BS<DoyRead> {
+    (ns1900_0001_9999(), 0usize..9).prop_map(|(g, s)| DoyRead { g, s }).boxed()
+}
+
+fn doyread_oracle(c: &DoyRead) -> Verdict {
+    let cnt = c.g - greg_offset_ns(c.s);
+    let e = Epoch::from_duration(mk(cnt), SCALES[c.s]);
+    let g = greg_of_ns1900(c.g);
+    let in_year = c.g - days_1900(g.y, 1, 1) as i128 * NS_D;
+    let (yy, dd) = lib!(e.year_days_of_year());
+    ensure!(yy as i64 == g.y, "year_days_of_year of {} count {} ({:04}-{:02}-{:02}): year {}, want {}", SCALE_NAMES[c.s], cnt, g.y, g.m, g.d, yy, g.y);
+    // exact value: 1 + in_year / one day
+    let err = abs_err_vs_rational(dd, in_year + NS_D, NS_D);
+    ensure!(err <= 4.0 * ulp(dd.abs().max(1.0)), "day of year of {} count {} = {}, exact {} ns into the year (error {:e})", SCALE_NAMES[c.s], cnt, dd, in_year, err);
+    ensure!(dd >= 1.0, "day of year {} below 1", dd);
+    ensure!(lib!(e.day_of_year()) == dd, "day_of_year differs from year_days_of_year");
+    ensure!(lib!(e.year()) as i64 == g.y, "year() = {}, want {}", e.year(), g.y);
+    let diy = lib!(e.duration_in_year());
+    ensure!(count(diy) == in_year, "duration_in_year = {}, want {}", count(diy), in_year);
+    let class = if g.m == 12 && g.d == 31 { "31-december" } else if g.y < 1900 { "before-1900" } else if c.s != S_GPST { "scale!=GPST" } else { "plain" };
+    Verdict::Pass(class, class != "plain")
+}
+
 pub fn subs() -> Vec<Box<dyn DynSub>> {
     vec![
         sub(Sub { name: "c20.time_of_week", source: Source::Gen(tow_strategy, 2_400_000, 15_000_000), oracle: tow_oracle, known: no_known, hang_is_violation: false }),
         sub(Sub { name: "c20.time_of_week_inverse", source: Source::Gen(towinv_strategy, 1_600_000, 10_000_000), oracle: towinv_oracle, known: no_known, hang_is_violation: false }),
         sub(Sub { name: "c20.ns_counters", source: Source::Gen(counter_strategy, 1_600_000, 10_000_000), oracle: counter_oracle, known: no_known, hang_is_violation: false }),
         sub(Sub { name: "c20.day_of_year", source: Source::Gen(doy_strategy, 1_200_000, 8_000_000), oracle: doy_oracle, known: no_known, hang_is_violation: false }),
+        sub(Sub { name: "c20.day_of_year_read", source: Source::Gen(doyread_strategy, 1_600_000, 10_000_000), oracle: doyread_oracle, known: no_known, hang_is_violation: false }),
     ]
 }
